@@ -135,6 +135,16 @@ Definition rr_add_opt (r : rr) (key opt : Z) (val : list N) : outcome rr :=
   | _ => Err ARES_EFORMERR
   end.
 
+(* ares_dns_rr_add_abin: one more string at the end of the multistring *)
+Definition rr_add_abin (r : rr) (key : Z) (val : list N) : outcome rr :=
+  if negb (key_datatype key =? ARES_DATATYPE_ABINP) then Err ARES_EFORMERR else
+  if negb (rr_type r =? key_to_rec_type key) then Err ARES_EFORMERR else
+  match assoc_get key (rr_fields r) with
+  | Some (FAbin l) =>
+    Ok (mkRR (rr_name r) (rr_type r) (rr_class r) (rr_ttl r) (assoc_set key (FAbin (l ++ [val])) (rr_fields r)))
+  | _ => Err ARES_EFORMERR
+  end.
+
 (* ares_dns_record_create: validity of opcode / rcode / flags *)
 Definition record_create (id flags opcode rcode : Z) : outcome dnsrec :=
   do fl <- c_ares_dns_flags_arevalid flags;
